@@ -113,7 +113,11 @@ Definition probe_prop (s0 : st) (t : list channel) (dn : list channel) (p : prob
     | _ => false
     end
   | PIdxDR f dr o =>
-    match o with Ok i => matches_freq_dr t f dr i | Err => true | _ => false end
+    match o with
+    | Ok i => matches_freq_dr t f dr i
+    | Err => negb (existsb (matches_freq_dr t f dr) (zrange (zlen t)))   (* an error only when no channel matches *)
+    | _ => false
+    end
   end.
 
 (* outcome each call must have, given the number of channels at that moment *)
